@@ -43,7 +43,17 @@ def check_instant(rm, rep, name, events, seen):
             iv, direction = loop_interval(L)
             stores = [s for s in ev.stores if s[1] == X]
             ok, why = True, ''
+            # every iteration must write: a path through the loop body that skips the store leaves that element with the
+            # value of the previous instant (or of a previous simulation)
+            paths = [p for p in L.paths if p.exit in ('next', 'continue')]
+            skipping = [p for p in paths if not any(e[0] == 'store' and e[2] == X for e in p.effects)]
+            if skipping and len(skipping) < len(paths) or (paths and len(skipping) == len(paths) and stores):
+                gtxt = ' and '.join(g_.show(ctx)[:60] for g_ in skipping[0].guards[-2:])
+                ok, why = False, (f'under `{gtxt}` an iteration of the propagation loop does not assign {X}: that element keeps a stale '
+                                  f'value and the pair is decoupled')
             for idx, attr, val, g in stores:
+                if not ok:
+                    break
                 if idx.c != 1 or idx.a != 0:
                     ok, why = False, f'writes E[{idx}].{X}: not an affine walk over the elements'
                     break
@@ -153,6 +163,16 @@ def check(model, rep):
     fresh = [n for n, _, _ in ins if n.startswith('fresh')]
     rep.decide(bool(fresh), 'C01.contexts', 'fresh-start instant', 'no fresh-start instant (t = 0) is computed before the stepping loop')
     rep.analysed.update({'run_paths': len(rm.paths), 'instant_contexts': len(ins), 'loops': len(rm.ir.loops)})
+    # "multiplied by the downstream element's gear ratio to its driver (slave teeth / master teeth ..., exactly 1 for a joint)":
+    # the ratio is what the relation functions stored, by accepted declarations only (C10's effect and atomicity rules)
+    from sa.core import Report
+    from checks import c10
+    dep = Report('C10')
+    c10.check(model, dep)
+    for i in dep.instances:
+        if i.rule in ('C10.effects', 'C10.atomic'):
+            (rep.holds if i.status == 'HOLDS' else (rep.violation if i.status == 'VIOLATION' else rep.cannot))(
+                'C01.dep.ratio.' + i.rule.split('.')[1], i.construct, i.detail, i.loc)
     rep.require('C01.formula', 3, 'position, speed and acceleration propagation')
     rep.require('C01.coverage', 3)
     rep.require('C01.clamp', 1)
